@@ -107,6 +107,8 @@ PHANTOM = 'has-scheduled-jobs-reports-job-that-is-not-pending'
 
 def mstep(step):
     """model encoding of a harness step (the commit/rollback fate is harness-only)"""
+    if step[0] == 'crash':
+        return list(step[:2])          # kill -9 or exception unwinding: the same model step
     return list(step[:5]) if step[0] == 'schedule' else list(step)
 
 
@@ -396,7 +398,7 @@ def choose_step(rng, r, max_jobs, next_tx):
         cand.append((1.0 if inst.poll is None else 0.15, ['pollSelect', i]))
         cand.append((4.0 if inst.poll and inst.poll[0] == 'selected' else 0.1, ['pollCapture', i]))
         cand.append((4.0 if inst.poll and inst.poll[0] == 'running' else 0.1, ['pollNext', i]))
-        cand.append((0.12, ['crash', i]))
+        cand.append((0.12, ['crash', i] if rng.random() < 0.5 else ['crash', i, 1]))
     tot = sum(c[0] for c in cand)
     x = rng.random() * tot
     for wgt, st in cand:
